@@ -160,10 +160,7 @@ func implClientFor(g clientsets.ClientSets, name string) string {
 func runGateway(c *rig.Ctx, cs Case, m mode) int {
 	var v verdict
 	fail := func(kind, class, what string, impl, model interface{}) {
-		v.note(kind)
-		if m.record {
-			c.Fail(rig.Failure{Kind: kind, Class: class, What: what, Case: cs, Impl: impl, Model: model})
-		}
+		v.note(rig.Failure{Kind: kind, Class: class, What: what, Case: cs, Impl: impl, Model: model})
 	}
 	eps := map[int]string{}
 	for _, e := range cs.Endpoints {
@@ -190,7 +187,7 @@ func runGateway(c *rig.Ctx, cs Case, m mode) int {
 	}
 	if err := c.Model("C13.gateway", mcase, &mod); err != nil {
 		fail("diff", "c13.model-error", "model error "+err.Error(), nil, nil)
-		return v.sev
+		return v.flush(c, m)
 	}
 
 	ts := world()
@@ -201,7 +198,7 @@ func runGateway(c *rig.Ctx, cs Case, m mode) int {
 		srv, err = newEnv("http://me.verif:1", int(cs.Sync.N), "local", nil)
 		if err != nil {
 			fail("diff", "c13.harness", "cannot build a rate limiter: "+err.Error(), nil, nil)
-			return v.sev
+			return v.flush(c, m)
 		}
 		for _, e := range cs.Sync.Leaders {
 			elector.VerifC13SetLeader(srv.le, int(e.S), rig.UnHex(e.L))
@@ -209,7 +206,7 @@ func runGateway(c *rig.Ctx, cs Case, m mode) int {
 		info, err := srv.rl.ServerInfo()
 		if err != nil {
 			fail("diff", "c13.harness", "ServerInfo: "+err.Error(), nil, nil)
-			return v.sev
+			return v.flush(c, m)
 		}
 		b, _ := json.Marshal(info)
 		worldMu.Lock()
@@ -294,5 +291,5 @@ func runGateway(c *rig.Ctx, cs Case, m mode) int {
 		fail("diff", "c13.gw-endpoints", fmt.Sprintf("gateway leaderEndpoints: model %s, code %s", rig.Canon(mod.Endpoints), rig.Canon(implEps)), implEps, mod.Endpoints)
 	}
 	_ = limitutil.GetShardID
-	return v.sev
+	return v.flush(c, m)
 }
